@@ -50,12 +50,13 @@ CONFIG = {
                       "Unmarshal (field names, widths, tags, emptiness and trailing-data checks, cache reset/use) into "
                       "Generated/WireFacts.lean, and Proofs/WireFacts.lean proves each sequence, interpreted by Model/WireEv.lean, equal to "
                       "the codec of Model/Structs.lean; any other call, loop or statement kind in those functions is a broken tie. "
-                      "(2) for every structure (incl. TokenChallenge, type 5, batches, EncapKey, which are not extracted) the correspondence "
-                      "stream and the direct oracles (by execution, sampled).",
+                      "(2) for TokenChallenge, type 5, the batches and EncapKey (hand-rolled framing, hand-written models): a statement-level pin of the "
+                      "nine Marshal/Unmarshal functions regenerated on every run (extract/cmd/skeleton, loop headers and case values included, "
+                      "vs Proofs/SkelCodecs, rfl); (3) for every structure the correspondence stream and the direct oracles (by execution, sampled).",
         "trusted_base": COMMON_TB + ["cryptobyte read/build semantics as restated in Model/Codec.lean", "go-hpke public-key validity (oracle column)",
                                      "the meaning given to the extracted cryptobyte calls in Model/WireEv.lean"],
-        "extractors": [{"name": "wirefacts", "out": "WireFacts.lean"}],
-        "extra_modules": ["PatVerif.Proofs.WireFacts"],
+        "extractors": [{"name": "wirefacts", "out": "WireFacts.lean"}, {"name": "skeleton", "out": "Skeletons.lean"}],
+        "extra_modules": ["PatVerif.Proofs.WireFacts", "PatVerif.Proofs.SkelCodecs"],
         "assumptions": ["byte strings shorter than 2^31", "HPKE KEM table of go-hpke as read from its source (ids 0x10,0x12,0x20,0x21,0xFFFE,0xFFFF)"],
         "contradicts": "PatVerif.Props.C04",
     },
@@ -194,7 +195,8 @@ CONFIG = {
         "trusted_base": COMMON_TB + ["dependencies are total on arbitrary bytes (observed, not proved)"],
         "assumptions": ["inputs shorter than 2^31 bytes", "ed25519 public keys are 32 bytes (documented precondition)"],
         "mem_gb": 6,
-        "extra_modules": ["PatVerif.Proofs.LiteralRefine", "PatVerif.Proofs.UnpadRefine"],
+        "extractors": [{"name": "skeleton", "out": "Skeletons.lean"}],
+        "extra_modules": ["PatVerif.Proofs.LiteralRefine", "PatVerif.Proofs.UnpadRefine", "PatVerif.Proofs.SkelCodecs"],
         "contradicts": "PatVerif.Props.C03",
     },
     "C01": {
